@@ -19,9 +19,9 @@ oid = rec["id"]
 HOSTILE = ["../escaped", "../../escaped2", "/tmp/c30_abs_escape", "sub/dir", "..", ".", "a/../../b", "1.2.3", "x\x00y", ""]
 
 
-def mk_event(uid, root):
+def mk_event(uid, root, cls_uid="1.2.840.10008.5.1.4.1.1.2"):
     ds = Dataset()
-    ds.SOPClassUID = "1.2.840.10008.5.1.4.1.1.2"
+    ds.SOPClassUID = cls_uid
     ds.SOPInstanceUID = uid
     ds.PatientID = "P1"
     ds.PatientName = "N"
@@ -51,9 +51,13 @@ def snapshot(root):
 bad = None
 root = tempfile.mkdtemp(prefix="c30_")
 try:
-    for uid in HOSTILE:
+    CASES = [(u, "1.2.840.10008.5.1.4.1.1.2") for u in HOSTILE] + \
+        [("1.2.3.4", c) for c in ("1.2.3.999", "../../outside/evil", os.path.join(root, "abs_escape", "evil"), "sub/dir", "..", "a b/../c")]
+    for uid, cls_uid in CASES:
         storage = os.path.join(root, "work", "storage")
         os.makedirs(storage, exist_ok=True)
+        os.makedirs(os.path.join(root, "abs_escape"), exist_ok=True)
+        os.makedirs(os.path.join(root, "outside"), exist_ok=True)
         before = snapshot(root)
         abs_before = os.path.exists("/tmp/c30_abs_escape")
         log = logging.getLogger("c30")
@@ -62,11 +66,11 @@ try:
         try:
             if "qrscp" in oid:
                 from pynetdicom.apps.qrscp.handlers import handle_store
-                handle_store(mk_event(uid, root), storage, "sqlite:///" + os.path.join(root, "work", "db.sqlite"), {}, log)
+                handle_store(mk_event(uid, root, cls_uid), storage, "sqlite:///" + os.path.join(root, "work", "db.sqlite"), {}, log)
             else:
                 from pynetdicom.apps.common import handle_store
                 args = argparse.Namespace(ignore=False, output_directory=storage)
-                handle_store(mk_event(uid, root), args, log)
+                handle_store(mk_event(uid, root, cls_uid), args, log)
         except Exception as e:
             pass
         after = snapshot(root)
@@ -76,7 +80,7 @@ try:
             outside.append("/tmp/c30_abs_escape")
             os.unlink("/tmp/c30_abs_escape")
         if outside:
-            bad = dict(input={"SOPInstanceUID": uid, "storage_dir": "<root>/work/storage"}, observed={"files_created_outside": outside},
+            bad = dict(input={"SOPInstanceUID": uid, "SOPClassUID": cls_uid, "storage_dir": "<root>/work/storage"}, observed={"files_created_outside": outside},
                        expected="only files inside the storage directory (and the database file)")
             break
 finally:
